@@ -208,6 +208,10 @@ def _check_method(ctx, model, cls, name, mem, node, order, accepted_z,
             res = _result(ps.retval) if ps.term == "return" else None
             if res is None or res == ("NotImplemented",):
                 continue
+            rvv = ps.retval
+            if rvv[0] == "call" and (rvv[1] == f"super.{name}" or (
+                    rvv[1].endswith(f".{name}") and rvv[2][:1] == (S,))):
+                continue        # falls back to the inherited operator
             if res[0] == "node":
                 want_items = [("*S" if x == "S" and splice_self else x)
                               for x in order]
@@ -237,6 +241,11 @@ def _check_method(ctx, model, cls, name, mem, node, order, accepted_z,
             ctx.ob(f"E/{tag}/falls-off", False, loc, f"{tag} can return None")
             continue
         res = _result(ps.retval)
+        rvv = ps.retval
+        if lenient and rvv[0] == "call" and (rvv[1] == f"super.{name}" or (
+                rvv[1].endswith(f".{name}") and rvv[2][:1] == (S,))):
+            saw_general = True
+            continue            # falls back to the inherited operator
         if "gate-fail" in atoms:
             ok = res == ("NotImplemented",) and atoms[0] == "gate-fail"
             ctx.ob(f"E/{tag}/gate", ok, loc,
